@@ -467,6 +467,12 @@ func (ed *economicsData) ComputeGasUsedAndFeeBasedOnRefundValue(tx process.Trans
 			gasLimit := ed.ComputeGasLimit(tx)
 
 			gasLimitWithBuiltInCost := cost + gasLimit
+			if tx.GetGasLimit() <= gasLimitWithBuiltInCost {
+				// the provided gas does not exceed the built-in function cost: everything is consumed,
+				// the reported gas used can never be above the gas limit
+				return tx.GetGasLimit(), ed.ComputeTxFee(tx)
+			}
+
 			txFee := ed.ComputeTxFeeBasedOnGasUsed(tx, gasLimitWithBuiltInCost)
 
 			// transaction will consume all the gas if sender provided too much gas
